@@ -1,6 +1,6 @@
 """C07 - Nothing bound to a fabric outlives that fabric."""
 from common import (mentions, closure_in, async_body, closure_arg_sites, ok_return_bbs, call_bbs, named_local, src_calls,
-                    src_fields, src_consts, field_bool_edges, bodies_of)
+                    src_fields, src_consts, field_bool_edges, bodies_of, complete_removal_scan)
 from facts import AnchorLost, op_place
 import prims
 
@@ -41,7 +41,13 @@ def check(R):
         rf = closure_in(R, NOC + '::handle_remove_fabric', ['Fabrics::remove'])
         succ = R.call_guard(rf, 'fabric::Fabrics::remove')
         for p in purges:
-            pb = call_bbs(rf, p)
+            pb = [t.bb for t in rf.calls(p)]
+            if not pb:
+                R.fail('P5', rf.fn, f'RemoveFabric purges {p.split("::")[-2]} of the removed fabric',
+                       f'handle_remove_fabric removes the fabric (Fabrics::remove) but never calls {p}: state bound to the removed fabric index survives and is inherited '
+                       'by the next fabric that receives the same index (the fail-safe roll-back, the sibling removal path, does purge it)', f'{rf.file}:{rf.line}',
+                       key=f'P5|{NOC}::handle_remove_fabric|missing:{p}')
+                continue
             bad = prims.always_followed_by(rf, [e[1] for e in succ], pb)
             R.expect('P3', rf.fn, f'RemoveFabric: after fabrics.remove succeeded every path reaches {p.split("::")[-2]}::{p.split("::")[-1]}', not bad,
                      'purge on every path', f'a path from the success edge returns without {p}', rf.where(pb[0]))
@@ -115,7 +121,7 @@ def check(R):
                      b.where(t.bb))
         if resumption:
             rr = R.body(RESUME_RM)
-            R.expect('P4', rr.fn, 'resumption purge drops every record of the fabric (retain over all records)', any(c.endswith('::retain') for c in rr.calls_summary), 'records.retain(..)', 'no retain')
+            complete_removal_scan(R, 'P4', rr, 'fab_idx:sc::case::resumption::ResumableSession', 'the resumption purge drops every record of the fabric')
 
     # ---- b --------------------------------------------------------------------
     with R.clause('b'):
